@@ -11,13 +11,20 @@ DISABLE_MCOUNT_FILTER build has no events).
 Value sources (getrusage, /proc/self/statm, sched_getcpu, the watched variables)
 are inputs: one `Obs` per hook.
 
-Three behaviours of the unchanged tree are modelled both as coded and repaired
-(`fixArg`, `fixVar`, `fixIdx` = true is the repaired code):
+Four behaviours of the unchanged tree are modelled both as coded and repaired
+(`fixArg`, `fixVar`, `fixIdx`, `fixPair` = true is the repaired code):
   F17c  save_trigger_read reads the argument size from `argbuf + event_idx`
         instead of the start of the frame's slice
   F17b  save_watchpoint never refreshes the per-thread copy of a watched variable
   F17d  save_watchpoint tags its events with the rstack index although
         mcount_exit_filter_record keeps events with `idx < mtdp->idx`
+  F17e  save_trigger_read checks the room in the frame's slice event by event: with an
+        argument payload of 957..988 bytes (page-fault; 941..980 proc/statm) the read event of
+        the entry hook fits and the diff event of the exit hook does not, and an exit hook that
+        finds no read event stores a second READ event instead of nothing.  Repaired: the entry
+        hook stores its read events only if the diff events fit as well, the exit hook stores a
+        diff event only for a read event it finds.
+Time stamps are uint64_t: the duration the time filter sees is `end_time - start_time` modulo 2^64.
 Core-only imports (linked into uvmodel).
 -/
 import Uft.Model.Mcount
@@ -76,6 +83,7 @@ structure ECfg where
   fixArg : Bool := true
   fixVar : Bool := true
   fixIdx : Bool := true
+  fixPair : Bool := true
 
 def ECfg.watch (c : ECfg) : Bool := c.watchCpu || !c.varSizes.isEmpty
 
@@ -152,22 +160,36 @@ def mkReadEv (f : EFrame) (now midx : Nat) (diff : Bool) (src : ReadSrc) (v : Li
   | some o => { id := src.idDiff, time := now, idx := midx, dsize := src.dsize, data := zipSub v o.data }
   | none => { id := src.idRead, time := now, idx := midx, dsize := src.dsize, data := v.map (· % u64) }
 
-/-- one iteration of the loop over `read_events[]` -/
-def saveReadOne (off now midx : Nat) (diff : Bool) (o : Obs) (mask : Nat) (f : EFrame) (src : ReadSrc) : EFrame :=
+/-- the frame holds a READ event of the source (the search over `rstack->nr_events` events) -/
+def hasRead (f : EFrame) (src : ReadSrc) : Bool := (f.evs.find? (fun o => o.id == src.idRead)).isSome
+
+/-- one iteration of the loop over `read_events[]`; `pair`: the repaired code (F17e), which at exit
+    (`diff`) skips a source without a read event from the entry hook -/
+def saveReadOne (pair : Bool) (off now midx : Nat) (diff : Bool) (o : Obs) (mask : Nat) (f : EFrame) (src : ReadSrc) :
+    EFrame :=
   if mask &&& src.bit == 0 then f else
+  if pair && diff && !hasRead f src then f else
   -- event = ptr - evsize; "do not overwrite argument data": (void *)event < arg_data
   if f.eventIdx < src.evsize + off then f else
   match o.reads src.bit with
   | none => f
   | some v => { f with evs := mkReadEv f now midx diff src v :: f.evs, eventIdx := f.eventIdx - src.evsize }
 
-def saveReadL (off now midx : Nat) (diff : Bool) (o : Obs) (mask : Nat) : List ReadSrc → EFrame → EFrame
+def saveReadL (pair : Bool) (off now midx : Nat) (diff : Bool) (o : Obs) (mask : Nat) : List ReadSrc → EFrame → EFrame
   | [], f => f
-  | src :: r, f => saveReadL off now midx diff o mask r (saveReadOne off now midx diff o mask f src)
+  | src :: r, f => saveReadL pair off now midx diff o mask r (saveReadOne pair off now midx diff o mask f src)
 
-/-- save_trigger_read(mtdp, rstack, type = mask, diff); `midx` = mtdp->idx -/
+/-- the room the events of the selected sources take (`need` of the repaired save_trigger_read) -/
+def readNeed (mask : Nat) : List ReadSrc → Nat
+  | [] => 0
+  | src :: r => (if mask &&& src.bit == 0 then 0 else src.evsize) + readNeed mask r
+
+/-- save_trigger_read(mtdp, rstack, type = mask, diff); `midx` = mtdp->idx.  Repaired (F17e): the entry
+    hook stores nothing unless the read events and the diff events of the exit hook all fit above the
+    argument data (`ptr - 2 * need < arg_data`: return) -/
 def saveRead (cfg : ECfg) (f : EFrame) (mask midx : Nat) (diff : Bool) (o : Obs) : EFrame :=
-  saveReadL (argDataOff cfg f o.probe) (hookTime f.b) midx diff o mask readEvents f
+  if cfg.fixPair && !diff && f.eventIdx < 2 * readNeed mask readEvents + argDataOff cfg f o.probe then f else
+  saveReadL cfg.fixPair (argDataOff cfg f o.probe) (hookTime f.b) midx diff o mask readEvents f
 
 /-! ### save_watchpoint -/
 
@@ -358,7 +380,8 @@ def exitFinish (cfg : ECfg) (s : ESt) (f f1 : EFrame) (rest : List EFrame) (time
     (o : Obs) : ESt :=
   let s1 := watchStep cfg s f1.b rest.length o
   let s2 := { s1 with frames := f1 :: rest }
-  if (durOk cfg.base (f.b.endT - f.b.start) timeFilter && (!cfg.base.callerMode || f.b.caller)) || f.b.written || f.b.trace then
+  -- `rstack->end_time - rstack->start_time >= time_filter` on uint64_t
+  if (durOk cfg.base (subU64 f.b.endT f.b.start) timeFilter && (!cfg.base.callerMode || f.b.caller)) || f.b.written || f.b.trace then
     s2.recorded (recordTraceE cfg retv (f1 :: rest) s1.pend)
   else if !s1.pend.isEmpty then
     if hasAsync s1.pend then s2.recorded (recordTraceE cfg retv (f1 :: rest) s1.pend)
